@@ -31,6 +31,10 @@ type CallSpec struct {
 	NMsgs    int    `json:"nmsgs"` // request messages (client/bidi) or responses asked for (server)
 	Size     int    `json:"size"`
 	Fail     bool   `json:"fail"`
+	// Bomb: the (compressed) request decompresses to more than the handlers'
+	// read limit; this call must fail with the documented code and must not
+	// disturb any other call.
+	Bomb bool `json:"bomb,omitempty"`
 }
 
 type Plan struct {
@@ -39,6 +43,9 @@ type Plan struct {
 }
 
 func reqMsg(c CallSpec, i int) prog.Msg {
+	if c.Bomb {
+		return prog.Msg{N: int64(c.ID)*1000 + int64(i), TLen: 400000, TSeed: 1000 + c.ID%900} // highly compressible
+	}
 	if c.Kind == prog.Server {
 		// the number's last three digits tell the handler how many messages to send
 		i = c.NMsgs
@@ -61,7 +68,7 @@ func callErr(n int64) error {
 }
 
 func handlers() http.Handler {
-	opts := prog.Config{HComp: []string{"deflate", "toy"}}.HandlerOptions()
+	opts := prog.Config{HComp: []string{"deflate", "toy"}, HReadMax: 200000}.HandlerOptions()
 	mux := http.NewServeMux()
 	mux.Handle(prog.Procedure(prog.Unary), connect.NewUnaryHandler(prog.Procedure(prog.Unary), func(ctx context.Context, r *connect.Request[pingv1.PingRequest]) (*connect.Response[pingv1.PingResponse], error) {
 		if wantsFail(r.Msg.Number) {
@@ -263,6 +270,12 @@ func runCall(ctx context.Context, cl *connect.Client[pingv1.PingRequest, pingv1.
 
 func verify(r *result, phase string) error {
 	c := r.spec
+	if c.Bomb {
+		if r.err == nil || (r.err.Code != 3 && r.err.Code != 8) {
+			return fmt.Errorf("%s: call %d sends a message that decompresses beyond the handler's read limit; want invalid_argument/resource_exhausted, got %v", phase, c.ID, r.err)
+		}
+		return nil
+	}
 	want, fail := expected(c)
 	where := fmt.Sprintf("%s: call %d (%s/%s/%s send=%q, %d msgs of ~%d B)", phase, c.ID, c.Protocol, c.Codec, c.Kind, c.Send, c.NMsgs, c.Size)
 	if fail {
@@ -445,6 +458,12 @@ func gen(transport string, maxG, maxK int) func(t *rapid.T) Plan {
 					NMsgs:    rapid.IntRange(0, 4).Draw(t, "nmsgs"),
 					Size:     rapid.SampledFrom([]int{0, 5, 400, 520, 3000, 70000}).Draw(t, "size"),
 				}
+				if (c.Kind == prog.Unary || c.Kind == prog.Client) && c.Send != "" && rapid.IntRange(0, 7).Draw(t, "bomb") == 0 {
+					c.Bomb = true
+					if c.NMsgs == 0 {
+						c.NMsgs = 1
+					}
+				}
 				id++
 				calls = append(calls, c)
 			}
@@ -454,7 +473,7 @@ func gen(transport string, maxG, maxK int) func(t *rapid.T) Plan {
 	}
 }
 
-const rule = "plans of G goroutines × K calls with pairwise-distinct, self-describing payloads (every number and text derives from the call id) of mixed protocol, codec, send-compression (none/gzip/deflate/stateful toy), RPC kind, message count and size (0 B..70 KB), all through ONE handler set and ONE shared client per configuration; bidi calls use separate sender and receiver goroutines; built with -race and the buffer-poisoning hook. Oracle: each call's result equals what the same call yields alone (handlers are pure functions of the request), every retained value is re-verified after all calls finished and the pools were churned, and the race detector must stay silent. Non-trivial = calls overlapped in time (in-flight counter ≥ 2) and at least two compression/size classes"
+const rule = "plans of G goroutines × K calls with pairwise-distinct, self-describing payloads (every number and text derives from the call id) of mixed protocol, codec, send-compression (none/gzip/deflate/stateful toy), RPC kind, message count and size (0 B..70 KB), all through ONE handler set and ONE shared client per configuration; bidi calls use separate sender and receiver goroutines; some calls carry a compressed request that decompresses beyond the handlers' read limit (must fail alone); built with -race and the buffer-poisoning hook. Oracle: each call's result equals what the same call yields alone (handlers are pure functions of the request), every retained value is re-verified after all calls finished and the pools were churned, and the race detector must stay silent. Non-trivial = calls overlapped in time (in-flight counter ≥ 2) and at least two compression/size classes"
 
 var specMem = pbt.Spec[Plan]{Prop: "C13", Name: "plans-mem", Gen: gen("mem", 8, 6), Check: check, Rule: rule}
 var specSock = pbt.Spec[Plan]{Prop: "C13", Name: "plans-sock", Gen: gen("sock", 16, 8), Check: check, Rule: "as [plans-mem] over real loopback TCP sockets with net/http's HTTP/2 (h2c) server and transport: real parallel I/O"}
